@@ -223,8 +223,10 @@ def operator_case(ctx, rng):
     for _ in range(rng.randint(1, 5)):
         qs = sorted(rng.sample(range(14), rng.randint(0, 4)))
         c = rng.choice([0.5, -1.25, 2.0, 1e-3]) + (rng.choice([0, 0, 0.75j, -2j]))
+        if rng.random() < 0.3:
+            # real and imaginary parts of very different size (nothing is "negligible" in a conversion), huge and tiny values
+            c = rng.choice([12.5 + 1e-4j, 250 + 0.002j, -40 - 3e-4j, 1e-4 + 12.5j, 3e-6 - 250j, 1e5 + 0.3j, 1e-7, 2.5e-9j, 1e8])
         op += QubitOperator(tuple((q, rng.choice("XYZ")) for q in qs), c)
-    op.compress()
     if not op.terms:
         return True
     ctx.count("operator")
@@ -233,8 +235,9 @@ def operator_case(ctx, rng):
     except Exception as e:
         ctx.violation(f"operator conversion through cirq raised {type(e).__name__}", {"op": str(op)})
         return False
+    exact_same = set(back.terms) == set(op.terms) and all(abs(complex(back.terms[k]) - complex(op.terms[k])) <= 1e-15 * max(1.0, abs(op.terms[k])) for k in op.terms)
     back.compress()
-    if back != op or set(back.terms) != set(op.terms):
+    if back != op or set(back.terms) != set(op.terms) or not exact_same:
         ctx.violation(f"operator round trip through cirq changed the operator: {op} -> {back}", {"op": str(op)})
         return False
     return True
